@@ -31,7 +31,9 @@ for name in $NAMES; do
     if [ -n "$demo" ]; then
       base=$(basename "$demo" .rs)
       # where does the demo live? (the agent's notes say; default by the crates it uses)
-      if grep -q "eval/tests" "$dir/notes.md" 2>/dev/null || grep -q "llfree_eval" "$demo"; then crate=llfree-eval; dst=eval/tests; else crate=llfree; dst=core/tests; fi
+      if grep -q "core/tests/$base" "$dir/notes.md" 2>/dev/null; then crate=llfree; dst=core/tests
+      elif grep -q "eval/tests/$base" "$dir/notes.md" 2>/dev/null || grep -q "llfree_eval" "$demo"; then crate=llfree-eval; dst=eval/tests
+      else crate=llfree; dst=core/tests; fi
       feat=""
       grep -q 'feature = "verif"' "$demo" && feat="--features verif,std"
       [ "$crate" = llfree ] && [ -z "$feat" ] && feat="--features std"
